@@ -150,6 +150,32 @@ def generator_order(ctx, gen):
     return pl, forms
 
 
+def generator_p4(ctx, prefix, g, pl):
+    """P4: the output file of a task is named after the per-file loop variable (one distinct target per binary file
+    of the first plotfile), never after anything of the other plotfile: two tasks of one pool call must not open the
+    same file for writing"""
+    env = rules.local_env(g.node)
+    dicts = [n for n in ast.walk(pl.loop) if isinstance(n, ast.Dict)]
+    for d in dicts:
+        for k, v in zip(d.keys, d.values):
+            if isinstance(k, ast.Constant) and k.value == "bfile_w":
+                txt = rules.deep(v, env, g.params)
+                node = ast.parse(txt, mode="eval").body
+                last = node.args[-1] if isinstance(node, ast.Call) and norm(node.func) == "os.path.join" and node.args else node
+                names = {x.id for x in ast.walk(last) if isinstance(x, ast.Name)}
+                attrs = {norm(x) for x in ast.walk(last) if isinstance(x, ast.Attribute)}
+                from_other = "other" in names or any(a.startswith("other.") for a in attrs)
+                ok = pl.var in names and not from_other and norm(last).startswith("os.path.basename(")
+                ctx.decide(ok, (pl.var in names) or from_other, f"{prefix}.P4", g.site,
+                           f"output file = <out>/<level dir>/basename(<file of plotfile 1 handled by the task>): one "
+                           f"distinct target per task",
+                           f"the output file name is `{norm(last)[:90]}`: it is not derived from the per-file loop "
+                           f"variable `{pl.var}` alone" + (" but from the other plotfile's file table" if from_other else "")
+                           + " — two tasks of the same pool call can open the same Cell_D file with 'wb', and its "
+                           "bytes then depend on which task finishes last", key="bfile_w", where=loc(g, d),
+                           objects={"bfile_w": txt[:200]})
+
+
 def run(ctx):
     prog = ctx.prog
     access = {}
@@ -183,6 +209,8 @@ def run(ctx):
             ctx.check(ok, f"{P}.P5", g.site, "tasks are generated per np.unique(files) of the first plotfile, like "
                                              "the scatter map", f"{g.qualname} iterates {pl.table if pl else None}",
                       key=f"{mode}:unique")
+            if pl is not None:
+                generator_p4(ctx, P, g, pl)
             # SIDE-COH: where side 2 is addressed per box, its file list and its offset list are the per-box
             # selections of plotfile 2's own tables by the *same* box index array (the file group's box ids)
             if forms and "offst_r2" in forms and isinstance(forms.get("bfile_r2"), str):
